@@ -298,7 +298,7 @@ func functionEnv(f starlark.Callable) (starlark.Value, error) {
 
 // envPickler provides support for pickling functions and modules.
 //
-// - Builtins are pickled as (NEWOBJ "dawn" "Builtin" ())
+// - Builtins are pickled as (NEWOBJ "dawn" "Builtin" (name,))
 // - Function code is pickled as (NEWOBJ "dawn" "FunctionCode" (module, globals, bytecode))
 // - Functions are pickled as (NEWOBJ "dawn" "Function" (defaults, freevars, code)).
 func envPickler(x starlark.Value) (module, name string, args starlark.Tuple, err error) {
@@ -306,7 +306,7 @@ func envPickler(x starlark.Value) (module, name string, args starlark.Tuple, err
 	case *function:
 		return "dawn", "Target", starlark.Tuple{starlark.String(x.label.String())}, nil
 	case *starlark.Builtin:
-		return "dawn", "Builtin", starlark.Tuple{}, nil
+		return "dawn", "Builtin", starlark.Tuple{starlark.String(x.Name())}, nil
 	case *starlark.FunctionCode:
 		module, globals := x.ModuleEnv()
 		return "dawn", "FunctionCode", starlark.Tuple{module, globals, starlark.Bytes(x.Bytecode())}, nil
@@ -320,7 +320,7 @@ func envPickler(x starlark.Value) (module, name string, args starlark.Tuple, err
 
 // envUnpickler provides support for unpickling functions and modules.
 //
-//   - Builtins are unpickled from (NEWOBJ "dawn" "Builtin" ()) into ()
+//   - Builtins are unpickled from (NEWOBJ "dawn" "Builtin" (name,)) into (name,)
 //   - Function code is unpickled from (NEWOBJ "dawn" "FunctionCode" (module, globals, bytecode))
 //     into a dictionary.
 //   - Functions are unpickled from (NEWOBJ "dawn" "Function" (defaults, freevars, code))
@@ -337,8 +337,9 @@ func envUnpickler(module, name string, args starlark.Tuple) (starlark.Value, err
 		}
 		return args[0], nil
 	case "Builtin":
-		if len(args) != 0 {
-			return nil, fmt.Errorf("expected 0 args, got %v", len(args))
+		// Records written before builtins carried their name have no arguments.
+		if len(args) > 1 {
+			return nil, fmt.Errorf("expected at most 1 arg, got %v", len(args))
 		}
 		return args, nil
 	case "FunctionCode":
